@@ -114,6 +114,7 @@ class State:
         self.heap: dict = {}
         self.lists = z3.Const("lists0", z3.ArraySort(z3.IntSort(), V.ValSeq))
         self.sets = z3.Const("sets0", z3.ArraySort(z3.IntSort(), z3.ArraySort(V.Val, z3.BoolSort())))  # mutable set()s
+        self.aux: dict = {}  # further z3 state components (e.g. bytearray contents), copied on fork
         self.frames: dict[int, Frame] = {}
         self.globals: dict = {}
         self.ghost: dict = {}
@@ -130,6 +131,7 @@ class State:
         s.heap = dict(self.heap)
         s.lists = self.lists
         s.sets = self.sets
+        s.aux = dict(self.aux)
         s.frames = {k: f.copy() for k, f in self.frames.items()}
         s.globals = dict(self.globals)
         s.ghost = dict(self.ghost)
@@ -724,6 +726,13 @@ class Engine:
         if m is not None:
             yield from m.fn(self, st, list(args), dict(kwargs))
             return
+        if isinstance(f, types.BuiltinFunctionType) and getattr(f, "__self__", None) is not None and not isinstance(f.__self__, types.ModuleType):
+            owner = f.__self__ if isinstance(f.__self__, type) else type(f.__self__)
+            mm_ = self.method_models.get((owner, f.__name__))
+            if mm_ is not None and not self.all_concrete(args, kwargs):
+                pre_args = [] if isinstance(f.__self__, type) else [f.__self__]
+                yield from mm_.fn(self, st, pre_args + list(args), dict(kwargs))
+                return
         if isinstance(f, types.FunctionType):
             if hasattr(f, "registry") and hasattr(f, "dispatch"):
                 yield from self.call_singledispatch(f, args, kwargs, st, line)
